@@ -44,11 +44,54 @@ def execute_one(prop, scenario):
         return None, "exception", traceback.format_exc()
 
 
+_SEQ = []  # indices this worker process has executed so far (a violation that does not reproduce alone is re-tried as a sequence)
+
+
+def _scenario_for(prop, master, idx, tier):
+    rs = run_seed_for(master, prop.id, idx)
+    scenario = prop.generate(Draws(rs), idx, tier)
+    scenario.setdefault("run_seed", rs)
+    scenario.setdefault("index", idx)
+    return scenario
+
+
+def run_sequence(prop, tier, master, indices, target=None, final_scenario=None):
+    """Execute the runs `indices` one after the other in THIS process; returns the outcome of the last one (whose scenario may be
+    given explicitly, e.g. pinned).  Used from a fresh interpreter: state that the code under test keeps between runs is then
+    exactly what a worker process had accumulated."""
+    out = None
+    for k, idx in enumerate(indices):
+        sc = final_scenario if (final_scenario is not None and k == len(indices) - 1) else _scenario_for(prop, master, idx, tier)
+        out, ek, et = execute_one(prop, sc)
+    return out
+
+
+def _try_sequence(prop, tier, master, before, idx, target):
+    """A violation that does not reproduce when its run is executed alone: replay the runs the worker had executed before it, in a
+    fresh interpreter (shortest suffix first).  Returns the list of indices that reproduces it, or None."""
+    import subprocess
+
+    for n in (4, 16, 64, len(before)):
+        seq = list(before[-n:]) + [idx]
+        cmd = [sys.executable, "-B", "-m", "simverif.cli", "sequence", prop.id, tier, str(master), json.dumps(seq), target.oracle, target.sig]
+        try:
+            r = subprocess.run(cmd, capture_output=True, text=True, timeout=900, env=dict(os.environ, PYTHONHASHSEED="0"))
+        except Exception:
+            return None
+        if "SEQUENCE-REPRODUCED" in r.stdout:
+            return seq
+        if n >= len(before):
+            break
+    return None
+
+
 def _work(task):
     tier, master, indices = task
     prop = _PROP
     res = []
     for idx in indices:
+        before = list(_SEQ)
+        _SEQ.append(idx)
         rs = run_seed_for(master, prop.id, idx)
         t0 = time.time()
         try:
@@ -79,6 +122,8 @@ def _work(task):
         }
         if out.violations or idx < 4:
             r["scenario"] = scenario
+        if out.violations:
+            r["before"] = before
         if idx < 4 or (out.nontrivial_sigs and idx % 50 == 0):
             r["sample"] = out.sample if out.sample is not None else _compact(scenario)
         res.append(r)
@@ -125,7 +170,12 @@ def replay_file(path, prop_loader):
         doc = json.load(f)
     prop = prop_loader(doc["property"])
     prop.setup_process()
-    out, ek, et = execute_one(prop, doc["scenario"])
+    if doc.get("sequence"):
+        sq = doc["sequence"]
+        out = run_sequence(prop, sq["tier"], sq["master"], sq["indices"])
+        ek = et = "sequence"
+    else:
+        out, ek, et = execute_one(prop, doc["scenario"])
     if out is None:
         print("REPLAY-ERROR %s\n%s" % (ek, et))
         return 2
@@ -236,7 +286,7 @@ def run_check(prop, tier, master_seed, budget_s=None, workers=None, runs=None, v
             agg["samples"].append(r["sample"])
         agg["digests"][r["index"]] = r["digest"]
         for (oracle, sig, narr, pin) in r["violations"]:
-            agg["violations"].setdefault((oracle, sig), []).append((r["index"], narr, r.get("scenario"), pin))
+            agg["violations"].setdefault((oracle, sig), []).append((r["index"], narr, r.get("scenario"), pin, r.get("before") or []))
 
     # ---- determinism spot check: re-run the first scenarios here, in another process position
     det_checked = det_mismatch = 0
@@ -273,7 +323,7 @@ def run_check(prop, tier, master_seed, budget_s=None, workers=None, runs=None, v
             harness_errors.append("violation %s:%s without scenario" % (oracle, sig))
             continue
         items.sort(key=lambda it: len(json.dumps(it[2], default=repr)))
-        idx, narr, scenario, pin = items[0]
+        idx, narr, scenario, pin, before = items[0]
         target = Violation(oracle, sig, narr)
         if pin:
             pinned = dict(scenario)
@@ -284,7 +334,24 @@ def run_check(prop, tier, master_seed, budget_s=None, workers=None, runs=None, v
         # must reproduce here (same process twice) before it is believed
         out, ek, et = execute_one(prop, scenario)
         if out is None or not any(prop.same_class(target, v) for v in out.violations):
-            harness_errors.append("HARNESS-NONDETERMINISM: violation %s:%s of run %d did not reproduce (%s)" % (oracle, sig, idx, ek))
+            # not alone - but perhaps after the runs the worker had executed before it: the code under test may keep state between
+            # runs (a module-level cache).  Replayed in a fresh interpreter; only then is it believed.
+            seq = _try_sequence(prop, tier, master_seed, before, idx, target) if before else None
+            if seq is None:
+                harness_errors.append("HARNESS-NONDETERMINISM: violation %s:%s of run %d did not reproduce (%s)" % (oracle, sig, idx, ek))
+                continue
+            path = write_replay(prop, scenario, target, None, tier, {"sequence": True})
+            with open(path) as f:
+                doc = json.load(f)
+            doc["sequence"] = {"tier": tier, "master": master_seed, "indices": seq}
+            with open(path, "w") as f:
+                json.dump(doc, f, indent=1, sort_keys=True, default=repr)
+            print("violation %s:%s (run %d, %d occurrence(s))\n   %s\n   (reproduces only after the %d run(s) executed before it in the same process: the code under test keeps state between runs)"
+                  % (oracle, sig, idx, len(items), narr, len(seq) - 1))
+            line = "VIOLATION property=%s replay=%s" % (prop.id, path)
+            print(line)
+            new_violation_lines.append(line)
+            exit_code = 1
             continue
         before = len(json.dumps(scenario, default=repr))
         if gi < (2 if tier == "quick" else 6):
